@@ -309,10 +309,15 @@ type cmodel struct {
 }
 
 type cinst struct {
-	c     *runtime.VerifCache
-	m     cmodel
-	ctxs  map[string][]context.Context // teardown contexts handed out per id
-	wantC map[string][]bool            // model: cancelled?
+	c       *runtime.VerifCache
+	m       cmodel
+	ctxs    map[string][]context.Context // teardown contexts handed out per id
+	parents map[string][]context.CancelFunc
+	wantC   map[string][]bool // model: cancelled?
+	// ctxHist keeps, per id, the order of context creations / parent cancellations / releases: two
+	// holders created before or after a cancellation are different states for an implementation that
+	// shares one waiter channel per id (merging them would hide exactly that kind of bug)
+	ctxHist map[string]string
 }
 
 func mkRes(id string, ver int, td bool) resource.Resource {
@@ -337,7 +342,12 @@ func (in *cinst) Canon() string {
 		w = append(w, fmt.Sprintf("%s:%v", id, cs))
 	}
 	sort.Strings(w)
-	return fmt.Sprintf("%v %v %v", in.m.boot, ids, w)
+	var hs []string
+	for id, h := range in.ctxHist {
+		hs = append(hs, id+":"+h)
+	}
+	sort.Strings(hs)
+	return fmt.Sprintf("%v %v %v %v", in.m.boot, ids, w, hs)
 }
 
 func (in *cinst) Ops() []string {
@@ -362,6 +372,9 @@ func (in *cinst) Ops() []string {
 		if len(in.ctxs[id]) < 2 {
 			out = append(out, "ctx "+id)
 		}
+		if len(in.ctxs[id]) > 0 && !in.wantC[id][0] {
+			out = append(out, "cancelparent "+id) // the first holder's own context ends
+		}
 	}
 	return out
 }
@@ -379,6 +392,9 @@ func (in *cinst) Apply(op string) string {
 	cancelAll := func(id string) {
 		for i := range in.wantC[id] {
 			in.wantC[id][i] = true
+		}
+		if len(in.wantC[id]) > 0 {
+			in.ctxHist[id] += "r"
 		}
 	}
 	switch f[0] {
@@ -399,8 +415,15 @@ func (in *cinst) Apply(op string) string {
 		in.c.CacheRemove(mkRes(f[1], 1, false))
 		delete(in.m.m, f[1])
 		cancelAll(f[1])
+	case "cancelparent":
+		in.ctxHist[f[1]] += "x"
+		in.parents[f[1]][0]()
+		in.wantC[f[1]][0] = true
 	case "ctx":
-		c, err := in.c.ContextWithTeardown(ctx, hx.IntPtr(f[1]))
+		pctx, pcancel := context.WithCancel(ctx)
+		in.ctxHist[f[1]] += "c"
+		in.parents[f[1]] = append(in.parents[f[1]], pcancel)
+		c, err := in.c.ContextWithTeardown(pctx, hx.IntPtr(f[1]))
 		if err != nil {
 			return "ContextWithTeardown: " + err.Error()
 		}
@@ -463,7 +486,7 @@ func cacheBFS(x *explore.X, depth int) {
 			var canon, viol string
 			var ops []string
 			res := vrt.Run(nil, vrt.Options{}, func() {
-				in := &cinst{c: runtime.VerifNewCache([]options.CachedResource{{Namespace: hx.NS, Type: tInt}}), m: cmodel{m: map[string]string{}}, ctxs: map[string][]context.Context{}, wantC: map[string][]bool{}}
+				in := &cinst{c: runtime.VerifNewCache([]options.CachedResource{{Namespace: hx.NS, Type: tInt}}), m: cmodel{m: map[string]string{}}, ctxs: map[string][]context.Context{}, parents: map[string][]context.CancelFunc{}, wantC: map[string][]bool{}, ctxHist: map[string]string{}}
 				for _, op := range h {
 					if msg := in.Apply(op); msg != "" {
 						viol = msg
@@ -480,6 +503,11 @@ func cacheBFS(x *explore.X, depth int) {
 				}
 				canon, ops = in.Canon(), in.Ops()
 				// release waiters so that no goroutine is left behind
+				for _, ps := range in.parents {
+					for _, p := range ps {
+						p()
+					}
+				}
 				for _, id := range []string{"a", "b", "c"} {
 					in.c.CacheRemove(mkRes(id, 1, false))
 				}
@@ -545,9 +573,9 @@ func build(tier string) []explore.Scenario {
 			Body:   func(x *explore.X) { body(c, x) },
 		})
 	}
-	depth := 5
+	depth := 6
 	if tier == "thorough" {
-		depth = 7
+		depth = 8
 	}
 	out = append(out, explore.Scenario{
 		Name:       fmt.Sprintf("cache-bfs/depth%d", depth),
